@@ -53,9 +53,10 @@ static const char *kAllocName = "std";
 struct Key {
   int v;
 };
-// a key of COARSER granularity than the comparator: class c is equivalent to every element e with (e / mod) / 2 == c
+// a key of COARSER granularity than the comparator: class c of width w is equivalent to every element e with (e / mod) / w == c
 struct KeyC {
   int c;
+  int w;  // width of the class
 };
 template <class X>
 static int valOf(const X &x) {
@@ -86,13 +87,13 @@ struct CmpBase {
   template <bool T = Transparent, typename std::enable_if<T, int>::type = 0>
   bool operator()(const E &a, const KeyC &k) const {
     ++R.cmpCalls;
-    int ca = (valOf(a) / mod) / 2;
+    int ca = (valOf(a) / mod) / k.w;
     return desc ? k.c < ca : ca < k.c;
   }
   template <bool T = Transparent, typename std::enable_if<T, int>::type = 0>
   bool operator()(const KeyC &k, const E &b) const {
     ++R.cmpCalls;
-    int cb = (valOf(b) / mod) / 2;
+    int cb = (valOf(b) / mod) / k.w;
     return desc ? cb < k.c : k.c < cb;
   }
   int cm() const { return (desc ? 1 : 0) + (mod == 2 ? 2 : 0); }
@@ -587,7 +588,7 @@ static void run1(Slot<T> &s, const Label &lb, Result &r) {
     }
   } else if (op == "lowerBoundC" || op == "upperBoundC" || op == "countC" || op == "containsC") {
     if constexpr (CmpId<C>::transparent) {
-      KeyC key{lb.v};
+      KeyC key{lb.v, lb.n == 0 ? 2 : static_cast<int>(lb.n)};
       if (op == "countC") {
         guarded(lb, r, [&] { r.val(static_cast<long>(cv.count(key))); });
       } else if (op == "containsC") {
@@ -810,12 +811,22 @@ static void observeAll(std::string &out, std::index_sequence<I...>) {
 }
 
 extern long g_h0, g_h1;
+template <size_t... I>
+static void healAll(std::index_sequence<I...>) {
+  auto heal = [](auto &s) {
+    if (s.ex())
+      for (const E &e : static_cast<const typename std::remove_reference<decltype(s)>::type::type &>(*s.p)) e.heal_();
+    if (s.node && !s.node->empty()) s.node->value().heal_();
+  };
+  (heal(std::get<I>(g_slots)), ...);
+}
+
 static void emit(const Label &lb, const Result &r) {
   Internal g;
   std::string line = "{\"e\":\"op\",\"lbl\":" + lb.json() + ",\"ret\":" + r.json() + ",\"obs\":[";
   observeAll(line, std::make_index_sequence<static_cast<size_t>(K)>());
   line += "],\"prims\":[" + R.prims + "],\"allocs\":[" + R.allocs + "],\"gm\":" + std::to_string(R.gm) +
-          ",\"te\":" + std::to_string(R.throwEvents) + ",\"cmps\":" + std::to_string(g_cmps) + ",\"h0\":" + std::to_string(g_h0) +
+          ",\"te\":" + std::to_string(R.throwEvents) + ",\"tm\":" + (R.thrownByMove ? "true" : "false") + ",\"cmps\":" + std::to_string(g_cmps) + ",\"h0\":" + std::to_string(g_h0) +
           ",\"h1\":" + std::to_string(g_h1) + "}";
   R.prims.clear();
   R.allocs.clear();
@@ -901,6 +912,22 @@ static void execute(const Label &lb) {
   g_lastInjected = r.k == "exc" && (r.what == "injected" || r.what == "bad_alloc");
   g_h1 = cop ? hashConstOperands(lb) : 0;
   emit(lb, r);
+  if (R.thrownByMove) {
+    // A move operation that throws inevitably leaves moved-from elements behind, and a set cannot keep its order
+    // with them (reported on this line, where the specification waives both): the sets are emptied by recorded
+    // clear() calls, so that what follows only has to show that nothing was leaked or destroyed twice.
+    R.thrownByMove = false;
+    healAll(std::make_index_sequence<static_cast<size_t>(K)>());
+    for (int c = 1; c <= K; ++c) {
+      if (exists(c)) {
+        Label cl;
+        cl.op = "clear";
+        cl.c = c;
+        cl.it = "-";
+        execute(cl);
+      }
+    }
+  }
 }
 
 static void finishExecution() {
